@@ -4,7 +4,7 @@
     ([no_exemptions] is defined there, equal to Corr.Adm.no_exemptions). *)
 From Coq Require Import List Bool NArith ZArith String.
 From PSA Require Import Base.Str Model.Api Model.Pod Model.Checks Model.Registry Model.Admission
-     Model.Namespace Spec.P05 Spec.PAdm Proofs.AdmFactsB.
+     Model.Namespace Spec.P05 Spec.PAdm Proofs.AdmFactsB Proofs.AdmFactsD.
 Import ListNotations.
 Local Open Scope string_scope.
 
@@ -77,4 +77,30 @@ Example C06_ex_dryrun :
                             [] [] ["gvisor"] 3000 1000000000)
                     ex06_deny_all r (World None "" (Some pods) None 0) in
   (existsb is_list (snd o), map snd (eval_events (snd o))) = (true, ["b"; "a"]).
+Proof. vm_compute. reflexivity. Qed.
+
+(** an exempt request is always allowed and never evaluated: when the namespace
+    or the user matches exactly, a pod request (outside the ignored
+    subresources) or a controller request (without subresource) is allowed,
+    marked, unevaluated, and makes no dependency call, whatever the
+    dependencies would answer (proof in Proofs/AdmFactsD.v) *)
+Theorem C06_exempt_always_allowed : forall c ev r w, P06_always_allowed c r (validate c ev r w) = true.
+Proof. exact C06_exempt_always_allowed_proof. Qed.
+Print Assumptions C06_exempt_always_allowed.
+
+(** non-vacuous: an exempt user's pod is allowed although the namespace lookup
+    would fail, the object would not decode and every evaluation would deny;
+    the premise of the relation holds and no dependency is called *)
+Example C06_ex_always_allowed :
+  let r := Request "" "pods" "" "ns" "p" "admin" OpCreate (ODecodeErr "bad") ONil None in
+  let o := validate ex06_cfg ex06_deny_all r (World None "down" None None 0) in
+  (s_exempt (r_user r) (cf_ex_users ex06_cfg), rs_allowed (fst o), ann "exempt" (fst o), snd o)
+  = (true, true, Some "user", [MExempt]).
+Proof. vm_compute. reflexivity. Qed.
+(** ... and likewise a controller in an exempt namespace *)
+Example C06_ex_always_allowed_ctrl :
+  let r := Request "apps" "deployments" "" "kube-system" "d" "u" OpCreate (OOther "junk") ONil None in
+  let o := validate ex06_cfg ex06_deny_all r (World None "down" None None 0) in
+  (s_exempt (r_namespace r) (cf_ex_namespaces ex06_cfg), rs_allowed (fst o), ann "exempt" (fst o), snd o)
+  = (true, true, Some "namespace", [MExempt]).
 Proof. vm_compute. reflexivity. Qed.
